@@ -52,5 +52,5 @@ Definition toy_run (tb : run_tables) (cfg : config) := run tb bytes toy_parse to
 Definition tables_pinned : run_tables :=
   {| t_libcst := [TryParse; TryTransform; IfNoChanges; IfNoDiff; IfNotDryWrite];
      t_regex := [IfNoChanges; IfNotDryWrite];
-     t_xml := [TryParse; TryTransform; IfNoChanges; IfNotDryWrite];
+     t_xml := [TryTransform; IfNoChanges; IfNotDryWrite];
      t_writers := [(SReqTxt, true); (SToml, true); (SSetupPy, true); (SSetupCfg, true)] |}.
